@@ -1117,3 +1117,82 @@ def import_prefix_rule(crate, prop, rule="C03.R9"):
                "the `./` prefix is decided from the text of the path (starts with `.`): a dependency in a dot-named directory (`.internal/Hidden.ts`) is imported as `\".internal/Hidden\"`, a bare specifier that names no file the export wrote", f, l)
     r.floor = 1
     return r
+
+
+def visitor_predicates_rule(crate, prop, rule="C11.R12"):
+    """a visitor decides per visited type from two facts only: has an error occurred, does the type have a file.
+    (TS::dependencies' collector: is there a Dependency for the type.)  Anything else - comparing paths, names, earlier
+    entries - makes what is exported/imported depend on more than the dependency relation."""
+    r = Result(rule, "the bodies of the two dependency visitors (`recursive_export::Visit::visit`, `TS::dependencies::Visit::visit`) consult nothing but the error flag, `T::output_path().is_none()` resp. `Dependency::from_ty::<T>()`: no comparison of paths or names, no look-up in what was collected before")
+    ALLOWED = [r"TS::output_path$", r"Option::<T>::(is_some|is_none)$", r"export_recursive$", r"Result::<T, E>::err$", r"Dependency::from_ty$", r"Vec::<T, A>::push$", r"Vec::<T>::push$",
+               r"Deref::deref$", r"DerefMut::deref_mut$", r"AsRef.*::as_ref$"]
+    n = 0
+    for b in crate.bodies:
+        if "as TypeVisitor>::visit" not in b.path or "{closure" in b.path:
+            continue
+        closures = [c for c in crate.bodies if c.path.startswith(b.path + "::{closure")]
+        n += 1
+        extra = []
+        for body in [b] + closures:
+            for blk, t in body.calls():
+                if body.is_cleanup(blk) or not t.get("fn"):
+                    continue
+                if not fn_matches(t, *ALLOWED):
+                    extra.append((t["fn"]["path"], M.user_span(t["span"])))
+        r.inst(visitor=b.path, other_calls=sorted({p for p, _ in extra}))
+        if extra or closures:
+            p, (f, l) = extra[0] if extra else (closures[0].path, (b.file(), b.line()))
+            r.fail(prop, "visitor-extra-predicate %s" % re.sub(r"<|>|'_", "", b.path.split(" as ")[0])[-40:],
+                   "%s consults %s: whether a dependency is exported / recorded now depends on more than `has it a file` (e.g. on its path being equal to the parent's, or on a name recorded earlier), so types sharing a file or a name are silently dropped" % (b.path, sorted({x for x, _ in extra}) or "a closure"),
+                   f, l)
+    if n < 2:
+        r.fail(prop, "anchor-missing visitors", "expected two TypeVisitor::visit bodies, found %d" % n)
+    r.floor = 2
+    return r
+
+
+def mkdir_origin_rule(crate, prop, rule="C11.R13"):
+    """directories are created for the *normalised* path: the file system resolves `a/b/../c` physically (through symlinks, and
+    by creating `a/b`), the library resolves it lexically"""
+    r = Result(rule, "the argument of create_dir_all in export_to is the parent of the path that path::absolute returned, the same path that is handed to the writer: no directory is created from a path that still contains `..`")
+    b = crate.body("export::export_to")
+    if b is None:
+        r.fail(prop, "anchor-missing export_to", "not found")
+        return r
+    mk = [(blk, t) for blk, t in b.calls() if not b.is_cleanup(blk) and fn_matches(t, r"fs::create_dir_all$")]
+    if not mk:
+        r.fail(prop, "anchor-missing create_dir_all", "export_to creates no directory", b.file(), b.line())
+    for blk, t in mk:
+        org = origins(b, op_local(t["args"][0]), identity=M.IDENTITY_CALLS + [r"Path::parent$", r"Option::<T>::unwrap$", r"Try::branch$", r"Result::<T, E>::(map_err|ok_or_else)$"])
+        from_abs = any(o["kind"] == "call" and fn_matches(o["t"], r"export::path::absolute$") for o in org)
+        raw = [o for o in org if o["kind"] == "arg"]
+        f, l = M.user_span(t["span"])
+        r.inst(fn=b.path, create_dir_all_argument_from=sorted({(M.callee(o["t"]) or "?") if o["kind"] == "call" else o["kind"] for o in org}), normalised=from_abs and not raw)
+        if not from_abs or raw:
+            r.fail(prop, "mkdir-unnormalised-path export::export_to",
+                   "create_dir_all receives a path that did not go through path::absolute: with `#[ts(export_to = \"../api/\")]` it creates the directory the `..` starts from (a spurious empty directory), and through a symlinked base directory the physical and the lexical resolution name different places", f, l)
+    r.floor = 1
+    return r
+
+
+def write_path_verbatim_rule(crate, prop, rule="C05.R15"):
+    """from export_to_string() to the bytes on disk and back into merge(), text is moved, cut and joined - never rewritten"""
+    r = Result(rule, "no function on the write path (export_to_string, export_to, export_and_merge, merge and their closures) calls a text-rewriting operation (replace, replacen, case conversion, repeat, escape_*) on what is written or read back; the single exception is generate_decl's blank-line elimination of T::decl() (C05.R13)")
+    REWRITERS = r"str::<impl str>::(replace|replacen|to_lowercase|to_uppercase|to_ascii_lowercase|to_ascii_uppercase|repeat|escape_\w+)$|String::replace_range$"
+    SCOPE = ("export::export_to_string", "export::export_to", "export::export_and_merge", "export::merge")
+    n = 0
+    for b in crate.bodies:
+        p0 = re.sub(r"::\{closure#\d+\}", "", b.path)
+        if p0 not in SCOPE:
+            continue
+        for blk, t in b.calls():
+            if b.is_cleanup(blk) or not t.get("fn"):
+                continue
+            n += 1
+            if fn_matches(t, REWRITERS):
+                f, l = M.user_span(t["span"])
+                r.fail(prop, "write-path-rewrites-text %s -> %s" % (p0, t["fn"]["path"].split("::")[-1]),
+                       "%s in %s: text whose blank-line / comment guarantees were established where it was produced is altered on its way to or from the file (`\\r\\n\\r\\n` inside a doc comment becomes an empty line; a declaration read back differs from the one that was generated)" % (t["fn"]["path"], p0), f, l)
+    r.inst(functions=list(SCOPE), calls_examined=n, rewriting_calls=len(r.findings))
+    r.floor = 1
+    return r
